@@ -17,7 +17,8 @@ object is visible in its text.
 The reference (`expected`) is written from the property statement only:
     names(result) = names(R) | names(S); R-only members unchanged; S-only members as in S with runtime False;
     same-kind pairs: parameter annotations by name, return and attribute annotations and the overload list from S
-    (where S gives none the statement is silent: R's or none are both accepted), docstring R's unless missing,
+    (whatever S declares for a field it covers, "no annotation" included: the stubs are authoritative for the members they
+    declare), docstring R's unless missing,
     parameters/defaults/values R's; different kinds or an alias on either side: R's member untouched; no alias resolved.
 """
 
@@ -392,7 +393,7 @@ def _merge_container(r_members: list, s_members: list, qual: str) -> dict:
             continue
         if r["k"] == "attr":
             rec = _own(r, "R", qual, True)
-            rec["ann"] = s["ann"] if s["ann"] else Any(r["ann"], None)
+            rec["ann"] = s["ann"]  # the stubs' annotation, also when they give none (see ASSUMPTIONS)
             if not r["doc"] and s["doc"]:
                 rec["doc"] = f"S:{q}"
             out[r["n"]] = rec
@@ -402,8 +403,8 @@ def _merge_container(r_members: list, s_members: list, qual: str) -> dict:
                 s_params = {p: a for p, a, _ in s["params"]}
                 for prm in rec["params"]:
                     if prm[0] in s_params:
-                        prm[1] = s_params[prm[0]] if s_params[prm[0]] else Any(prm[1], None)
-                rec["ret"] = s["ret"] if s["ret"] else Any(r["ret"], None)
+                        prm[1] = s_params[prm[0]]
+                rec["ret"] = s["ret"]
                 if not r["doc"] and s["doc"]:
                     rec["doc"] = f"S:{q}"
             if s.get("ov"):
